@@ -21,6 +21,8 @@ EXPLANATION = (
     "is dominated by the test-and-return of the static inGc flag and by inGc = true. "
     "G4 the cells that hold the sweep's free-piece index (B-tree nodes and list heads, cut from whole pages by stoAllocInner) "
     "lie inside their pages: cell count is the floor of page bytes over cell size (same obligation as C10 T-carve). "
+    "G5 in fint.c (fintFreeJunk, the stack cleaning before a requested collection) storage handed to a free routine through an lvalue "
+    "rooted at a global has that lvalue overwritten on every CFG path from the call to the function's exit. "
     "Not decided: completeness of conservative marking for every heap shape or schedule.")
 
 FLUSH = {"setjmp", "_setjmp", "__sigsetjmp", "sigsetjmp", "__builtin_unwind_init", "getcontext"}
@@ -152,6 +154,48 @@ def check_config(rep, config, units):
         rep.ok("G3", "reentrancy-guard" + tag)
 
 
+FREE_LIKE = {"fintChainedStackFree", "stoFree", "free"}
+
+
+def g5(rep):
+    """Interpreter stack cleaning before a collection (fint.c): storage reachable from a global that is handed to a free
+    routine must have its global reference overwritten before the function returns."""
+    f = common.extract("fint.c", all_trees=True, all_cfg=True)
+    n = 0
+    for name, fn in sorted(f.funcs.items()):
+        if "body" not in fn or not fn["file"].endswith("fint.c"):
+            continue
+        sites = []
+        for c in calls(fn["body"]):
+            if c.get("callee") in FREE_LIKE and len(c["c"]) >= 2:
+                a = strip(c["c"][1])
+                if a is not None and any(y["k"] == "DeclRefExpr" and y.get("dk") == "var" and y.get("g") for y in walk(a)) \
+                        and a["k"] != "DeclRefExpr":
+                    sites.append((c, common.render(a)))
+        if not sites:
+            continue
+        cfg = common.CFG(fn)
+        for c, txt in sites:
+            n += 1
+            key = "freed-global-ref-reset:%s:%s" % (name, txt)
+            ev = cfg.events(lambda nd, c=c: nd["id"] == c["id"])
+            if not ev:
+                raise AnalysisBroken("%s: call at line %d not found in the CFG" % (name, c["l"]))
+            b, j, _ = ev[0]
+
+            def resets(nd, txt=txt):
+                return nd["k"] == "BinaryOperator" and nd["op"] == "=" and common.render(strip(nd["c"][0])) == txt
+            p = cfg.path_avoiding(b, None, resets, src_idx=j)
+            if p is None:
+                rep.ok("G5", key, sample={"site": "fint.c:%d" % c["l"], "rule": "every path from the free to the exit assigns %s" % txt})
+            else:
+                rep.violation("G5", key, "fint.c:%d (%s)" % (c["l"], name),
+                              "%s is freed but the global reference to it is still in place when %s returns: the interpreter reuses the "
+                              "freed stack segment while the allocator hands the same memory out again" % (txt, name),
+                              detail={"cfg_path": p[:10]})
+    rep.floor("frees of storage reachable from an interpreter global", n, 1)
+
+
 def run(tier, only=None):
     rep = common.Report("C09", tier, EXPLANATION)
     check_config(rep, "compiler", common.compiler_units())
@@ -161,5 +205,6 @@ def run(tier, only=None):
     from . import c10_store_tables
     for config in ("compiler", "runtime"):
         c10_store_tables.check_carving(rep, config, rule="G4")
+    g5(rep)
     rep.assumptions.append("setjmp stores the callee-saved registers in its buffer (the idiom the collector relies on)")
     return rep
